@@ -176,6 +176,10 @@ func GetCacheKey(params ...interface{}) (string, bool) {
 			key.WriteString(strconv.Itoa(len(typedParam)))
 			key.WriteString(":")
 			key.WriteString(typedParam)
+		case *EnforceContext:
+			// only the value form is an enforce context to enforce(); the pointer form must not
+			// share the value form's key (it would be served the value form's cached decision)
+			return "", false
 		case CacheableParam:
 			cacheKey := typedParam.GetCacheKey()
 			key.WriteString("@")
